@@ -342,7 +342,14 @@ def _aexpr(node, leaves, suffix="%nat"):
     raise Unsupported("arithmetic outside the supported fragment: %s" % src)
 
 
-NAT_OPS = {ast.Eq: "(Nat.eqb %s %s)", ast.Lt: "(Nat.ltb %s %s)", ast.LtE: "(Nat.leb %s %s)"}
+class _Swap(str):
+    """format string whose two operands are exchanged (a > b  is  b < a)"""
+
+    def __mod__(self, ab):
+        return str.__mod__(self, (ab[1], ab[0]))
+
+
+NAT_OPS = {ast.Eq: "(Nat.eqb %s %s)", ast.Lt: "(Nat.ltb %s %s)", ast.LtE: "(Nat.leb %s %s)", ast.Gt: _Swap("(Nat.ltb %s %s)"), ast.GtE: _Swap("(Nat.leb %s %s)")}
 N_OPS = {ast.Eq: "(%s =? %s)", ast.Lt: "(%s <? %s)", ast.LtE: "(%s <=? %s)"}
 
 
@@ -370,6 +377,76 @@ def gate_item():
     return ("(* conductor/execution/executor.py Executor._launch_ops_if_able: `%s` ends the launch loop *)\n"
             "Definition gen_gate_open (has_ops has_par runpar : bool) (inflight slots : nat) : bool :=\n%s  negb %s.\n"
             % (_cmt(ast.unparse(w[k].test)), lets, stop))
+
+
+def _walk_stmts(body):
+    for st in body:
+        yield st
+        for attr in ("body", "orelse", "finalbody"):
+            sub = getattr(st, attr, None)
+            if isinstance(sub, list):
+                yield from _walk_stmts([x for x in sub if isinstance(x, ast.stmt)])
+        for h in getattr(st, "handlers", []) or []:
+            yield from _walk_stmts(h.body)
+        for item in getattr(st, "items", []) or []:
+            pass
+
+
+def loop_item():
+    """Executor.run_plan: the main loop's condition and the test that skips the wait when nothing is in flight"""
+    f = _find_method("conductor/execution/executor.py", "Executor", "run_plan")
+    loops = [st for st in _walk_stmts(f.body) if isinstance(st, ast.While)]
+    if len(loops) != 1:
+        raise Unsupported("run_plan has %d while loops" % len(loops))
+    w = loops[0]
+    leaves = {"self._ready_to_run.has_ops()": "has_ops", "len(self._inflight_ops)": "inflight"}
+    cond = _bexpr(w.test, leaves, NAT_OPS)
+    # body: should_stop = launch(); if should_stop: break; if <nothing in flight>: continue; should_stop = wait(); if should_stop: break
+    shape = [type(st).__name__ for st in w.body]
+    if shape != ["Assign", "If", "If", "Assign", "If"]:
+        raise Unsupported("the main loop's body has the shape %s" % shape)
+    a1, i1, i2, a2, i3 = w.body
+    if "_launch_ops_if_able" not in ast.unparse(a1.value) or "_wait_for_next_inflight_op" not in ast.unparse(a2.value):
+        raise Unsupported("the main loop does not launch and then wait")
+    for i in (i1, i3):
+        if ast.unparse(i.test) != "should_stop" or len(i.body) != 1 or not isinstance(i.body[0], ast.Break) or i.orelse:
+            raise Unsupported("the main loop is not left exactly when should_stop is set")
+    if len(i2.body) != 1 or not isinstance(i2.body[0], ast.Continue) or i2.orelse:
+        raise Unsupported("the test between launching and waiting does not `continue`")
+    skip = _bexpr(i2.test, leaves, NAT_OPS)
+    return ("(* conductor/execution/executor.py Executor.run_plan: `while %s:` ... `if %s: continue` *)\n"
+            "Definition gen_loop_goes_on (has_ops : bool) (inflight : nat) : bool := %s.\n"
+            "Definition gen_skip_wait (inflight : nat) : bool := %s.\n" % (_cmt(ast.unparse(w.test)), _cmt(ast.unparse(i2.test)), cond, skip))
+
+
+def slot_item():
+    """Executor._launch_ops_if_able: when a launched operation is given a slot"""
+    f = _find_method("conductor/execution/executor.py", "Executor", "_launch_ops_if_able")
+    found = [st for st in _walk_stmts(f.body) if isinstance(st, ast.Assign) and len(st.targets) == 1 and ast.unparse(st.targets[0]) == "slot"]
+    if len(found) != 1 or not isinstance(found[0].value, ast.IfExp):
+        raise Unsupported("`slot = <a> if <cond> else <b>` not found exactly once")
+    e = found[0].value
+    if ast.unparse(e.body) != "self._available_slots[-1]" or ast.unparse(e.orelse) != "None":
+        raise Unsupported("the slot is not `self._available_slots[-1] if ... else None`")
+    cond = _bexpr(e.test, {"self._running_parallel": "runpar", "self._slots": "slots"}, NAT_OPS)
+    return ("(* conductor/execution/executor.py Executor._launch_ops_if_able: slot = the top of the free-slot stack if `%s` else None *)\n"
+            "Definition gen_wants_slot (runpar : bool) (slots : nat) : bool := %s.\n" % (_cmt(ast.unparse(e.test)), cond))
+
+
+def prune_item():
+    """ExecutionPlanner.create_plan_for: when a first-visited task is reported cached and not traversed further"""
+    f = _find_method("conductor/execution/planning/planner.py", "ExecutionPlanner", "create_plan_for")
+    found = [st for st in _walk_stmts(f.body) if isinstance(st, ast.If) and "should_run" in ast.unparse(st.test)]
+    if len(found) != 1:
+        raise Unsupported("%d tests mention should_run" % len(found))
+    st = found[0]
+    leaves = {"run_again": "again", "lt.task.should_run(self._ctx, at_least_commit)": "should_run"}
+    cond = _bexpr(st.test, leaves, NAT_OPS)
+    body_src = " ".join(ast.unparse(x) for x in st.body)
+    if "cached_tasks.append(lt.task)" not in body_src or "continue" not in body_src:
+        raise Unsupported("the pruned branch does not record the task as cached and continue")
+    return ("(* conductor/execution/planning/planner.py create_plan_for: `if %s:` the task is reported cached and not traversed *)\n"
+            "Definition gen_prune (again should_run : bool) : bool := %s.\n" % (_cmt(ast.unparse(st.test)), cond))
 
 
 def version_item():
@@ -435,7 +512,8 @@ def generate():
     except Exception as ex:  # pylint: disable=broad-except
         failures["task_type_table"] = "%s: %s" % (type(ex).__name__, ex)
         parts.append("(* task_type_table: NOT TRANSLATED: %s *)\n" % str(ex).replace("*)", "* )"))
-    for coqname, fn in (("gen_gate_open", gate_item), ("gen_new_version", version_item)):
+    for coqname, fn in (("gen_gate_open", gate_item), ("gen_new_version", version_item), ("gen_loop_goes_on", loop_item), ("gen_wants_slot", slot_item),
+                        ("gen_prune", prune_item)):
         try:
             parts.append(fn())
         except Exception as ex:  # pylint: disable=broad-except
